@@ -51,7 +51,15 @@ def gen(ch):
     if sc.as_method:
         sc.extra.pop("self", None)
     sc.falsy_exc = ch.chance(1, 4)
+    # what a failing body raises: the injected fault | StopAsyncIteration | a bare Exception | a bare BaseException subclass
+    sc.exc_kind = ch.weighted([5, 1, 1, 1])
+    # the one manager instance decorates two functions; each call goes to one of them
+    sc.which = [[ch.draw(2) for _ in p] for p in sc.calls]
     return sc
+
+
+class BodyBase(BaseException):
+    pass
 
 
 class FalsyFault(InjectedFault):
@@ -136,7 +144,14 @@ def execute(st, ctx):
             problems.append(("arguments", call_id, repr(extra)))
         await pause(sc.susp[1], "body")
         if fails:
-            err = fault_type("body%r" % (call_id,))
+            if sc.exc_kind == 1:
+                err = StopAsyncIteration("body%r" % (call_id,))
+            elif sc.exc_kind == 2:
+                err = Exception("body%r" % (call_id,))
+            elif sc.exc_kind == 3:
+                err = BodyBase("body%r" % (call_id,))
+            else:
+                err = fault_type("body%r" % (call_id,))
             raised[call_id] = err
             raise err
         return ("result", call_id)
@@ -149,12 +164,24 @@ def execute(st, ctx):
                     problems.append(("self", call_id, repr(self)))
                 return await body_impl(call_id, fails, extra)
 
+            @decorator
+            async def body2(self, call_id, fails, /, **extra):
+                if self is not service:
+                    problems.append(("self", call_id, repr(self)))
+                return await body_impl(call_id, fails, extra)
+
         service = Service()
-        body = service.body
+        bodies = (service.body, service.body2)
     else:
         @decorator
         async def body(call_id, fails, /, **extra):
             return await body_impl(call_id, fails, extra)
+
+        @decorator
+        async def body_b(call_id, fails, /, **extra):
+            return await body_impl(call_id, fails, extra)
+
+        bodies = (body, body_b)
 
     results = {}
 
@@ -163,8 +190,12 @@ def execute(st, ctx):
             call_id = (ti, n)
             log.append(("call", call_id, sim.current.id))
             try:
-                results[call_id] = ("ok", await body(call_id, fails, **sc.extra))
-            except InjectedFault as err:
+                results[call_id] = ("ok", await bodies[sc.which[ti][n]](call_id, fails, **sc.extra))
+            except (InjectedFault, StopAsyncIteration, BodyBase) as err:
+                results[call_id] = ("raised", err)
+            except Exception as err:
+                if sc.exc_kind != 2 or type(err) is not Exception:
+                    raise
                 results[call_id] = ("raised", err)
             except CANCEL:
                 results[call_id] = ("cancelled", None)
@@ -179,7 +210,9 @@ def execute(st, ctx):
 
     def describe():
         return {"backend": sc.backend, "manager": sig[0], "suppress": sc.suppress, "decorated": "method" if sc.as_method else "function",
-                "keyword_arguments": sc.extra, "body_exception_tests_false": sc.falsy_exc, "suspensions": sc.susp, "calls": sc.calls,
+                "keyword_arguments": sc.extra, "body_exception_tests_false": sc.falsy_exc,
+                "body_raises": ("injected fault", "StopAsyncIteration", "Exception", "BaseException subclass")[sc.exc_kind],
+                "which_of_two_decorated_functions": sc.which, "suspensions": sc.susp, "calls": sc.calls,
                 "cancel": {"task": sc.cancel, "fired_at": sim.cancel_fired_at} if sc.cancel is not None else None,
                 "log": [repr(e[:4]) for e in log], "results": {repr(k): repr(v) for k, v in results.items()},
                 "interleaving": [(t >> 2, ("pause", "sleep", "lock_wait", "done")[t & 3]) for t in sim.trace][:120]}
@@ -235,7 +268,7 @@ def execute(st, ctx):
                     err = raised.get(call_id)
                     if exit_[4] != id(err):
                         out.violate("C15.exit_got_wrong_exception", sig, dict(describe(), call=call_id))
-                    if sc.suppress:
+                    if sc.suppress and isinstance(err, Exception):  # the managers suppress Exception, nothing wider
                         if res != ("ok", None):
                             out.violate("C15.suppressed_call_result_wrong", sig, dict(describe(), call=call_id))
                     elif res[0] != "raised" or res[1] is not err:
@@ -278,7 +311,8 @@ def execute(st, ctx):
     if sc.falsy_exc and any(f for p in sc.calls for f in p):
         out.probes["falsy_exception"] = 1
     out.nontrivial = overlap or any(len(p) >= 2 for p in sc.calls)
-    out.shape = (sc.backend, sc.kind, sc.suppress, sc.as_method, tuple(sorted(sc.extra)), sc.falsy_exc, tuple(sc.susp), tuple(tuple(p) for p in sc.calls), sc.cancel, hash(tuple(sim.trace)))
+    out.shape = (sc.backend, sc.kind, sc.suppress, sc.as_method, tuple(sorted(sc.extra)), sc.falsy_exc, sc.exc_kind,
+                 tuple(tuple(w) for w in sc.which), tuple(sc.susp), tuple(tuple(p) for p in sc.calls), sc.cancel, hash(tuple(sim.trace)))
     if ctx.want_sample:
         out.sample = describe()
     if ctx.want_log:
